@@ -7,20 +7,26 @@
    rules; fork_join: closed form over every sequence of deliveries and completions,
    plus its step rule. *)
 From RxVerif Require Import Base.Prelude Ops.Machine Ops.Multi Ops.MultiFacts Ops.RunLemmas
-  Ops.Combinators Ops.MergeFacts Ops.CombineFacts Ops.LatestFacts.
+  Ops.Combinators Ops.MergeFacts Ops.CombineFacts Ops.LatestFacts Ops.ZipRunFacts Ops.ZipSpecFacts
+  Ops.ZipPairFacts.
 
 Theorem C13_amb_refines_spec : forall A n (ins : list (Z * inp A)),
   temitted (fst (run (x_amb n) ins)) = amb_spec n None 1 ins.
 Proof. exact @amb_refines_spec. Qed.
 Print Assumptions C13_amb_refines_spec.
 
-(* amb unsubscribes the others at the winner's first notification *)
+(* helper about apply_cmds (its hypotheses are not tied to a reachable amb state): unsubscribing
+   every source but k from a duplicate-free live list leaves [k].  The statement about [run] is
+   C13_amb_run_losers_released below. *)
 Theorem C13_amb_losers_unsubscribed_at_once : forall A (k : nat) (others live : list nat) ts,
   NoDup live -> In k live -> ~ In k others -> (forall j, In j live -> j = k \/ In j others) ->
   fst (apply_cmds (B:=A) (RState live ts false) (map CUnsub others)) = RState [k] ts false.
 Proof. exact @apply_unsub_others. Qed.
 Print Assumptions C13_amb_losers_unsubscribed_at_once.
 
+(* about the HANDLER iterated on element deliveries (zip_feed); C13_zip_run_is_feed below shows
+   that [run] emits exactly zip_feed's tuples, and C13_zip_run_pairing is the run-level form over
+   the full input alphabet *)
 Theorem C13_zip_pairing : forall A (d : A) n (ins : list (nat * A)),
   Forall (fun p => (fst p < n)%nat) ins ->
   let '(st, outs) := zip_feed n (repeat [] n, repeat false n) ins [] in
@@ -117,6 +123,110 @@ Theorem C13_fork_join_at_most_one_tuple : forall A n (ins : list (nat * option A
   (length (fst (fj_spec n seen done ins)) <= 1)%nat.
 Proof. exact @fj_spec_at_most_one. Qed.
 Print Assumptions C13_fork_join_at_most_one_tuple.
+
+(* ---- the feeds are what the RUNNER emits ------------------------------------------------------
+   [elem_inputs tins] = the input sequence made of the element deliveries tins (time, (source,
+   element)) only.  For EVERY such sequence from existing sources: the notifications [run] emits are
+   exactly the feed's tuples, in order, nothing else (no termination), and every source is still
+   subscribed at the end. *)
+Theorem C13_zip_run_is_feed : forall A n (tins : list (Z * (nat * A))),
+  Forall (fun tp => (fst (snd tp) < n)%nat) tins ->
+  emitted (fst (run (x_zip n) (elem_inputs tins)))
+    = map Next (snd (zip_feed n (repeat [] n, repeat false n) (map snd tins) []))
+  /\ snd (run (x_zip n) (elem_inputs tins)) = RState (seq 0 n) [] false.
+Proof. exact @zip_run_is_feed. Qed.
+Print Assumptions C13_zip_run_is_feed.
+
+Theorem C13_combine_latest_run_is_feed : forall A n (tins : list (Z * (nat * A))),
+  Forall (fun tp => (fst (snd tp) < n)%nat) tins ->
+  emitted (fst (run (x_combine_latest n) (elem_inputs tins)))
+    = map Next (snd (cl_feed n (repeat None n, false, repeat false n) (map snd tins) []))
+  /\ snd (run (x_combine_latest n) (elem_inputs tins)) = RState (seq 0 n) [] false.
+Proof. exact @cl_run_is_feed. Qed.
+Print Assumptions C13_combine_latest_run_is_feed.
+
+Theorem C13_with_latest_from_run_is_feed : forall A n (tins : list (Z * (nat * A))),
+  Forall (fun tp => (fst (snd tp) <= n)%nat) tins ->
+  emitted (fst (run (x_with_latest_from n) (elem_inputs tins)))
+    = map Next (snd (wlf_feed n (repeat None n) (map snd tins) []))
+  /\ snd (run (x_with_latest_from n) (elem_inputs tins)) = RState (seq 1 n ++ [0%nat]) [] false.
+Proof. exact @wlf_run_is_feed. Qed.
+Print Assumptions C13_with_latest_from_run_is_feed.
+
+(* ... hence the closed forms are statements about [run] *)
+Theorem C13_combine_latest_run_closed_form : forall A n (tins : list (Z * (nat * A))),
+  (0 < n)%nat -> Forall (fun tp => (fst (snd tp) < n)%nat) tins ->
+  emitted (fst (run (x_combine_latest n) (elem_inputs tins))) = map Next (cl_spec n [] (map snd tins)).
+Proof. exact @cl_run_closed_form. Qed.
+Print Assumptions C13_combine_latest_run_closed_form.
+
+Theorem C13_with_latest_from_run_closed_form : forall A n (tins : list (Z * (nat * A))),
+  Forall (fun tp => (fst (snd tp) <= n)%nat) tins ->
+  emitted (fst (run (x_with_latest_from n) (elem_inputs tins))) = map Next (wlf_spec n [] (map snd tins)).
+Proof. exact @wlf_run_closed_form. Qed.
+Print Assumptions C13_with_latest_from_run_closed_form.
+
+Example C13_witness_run_is_feed :
+  let tins := [(1, (0%nat, 1)); (2, (0%nat, 2)); (3, (1%nat, 10)); (4, (1%nat, 20)); (5, (1%nat, 30))] in
+  emitted (fst (run (x_zip 2) (elem_inputs tins))) = [Next [1; 10]; Next [2; 20]]
+  /\ emitted (fst (run (x_combine_latest 2) (elem_inputs tins))) = [Next [2; 10]; Next [2; 20]; Next [2; 30]]
+  /\ emitted (fst (run (x_with_latest_from 1) (elem_inputs tins))) = [].
+Proof. vm_compute. repeat split; reflexivity. Qed.
+
+(* ---- amb: release of the losers, about [run] ----------------------------------------------------
+   [amb_quiet n] inputs: notifications of sources amb does not have, timer ticks.  As soon as one of
+   the n sources (w, the first) has notified, on EVERY continuation the runner ends with exactly w
+   subscribed or with everything released; post = [] : the losers are gone within that very step. *)
+Theorem C13_amb_run_losers_released : forall A n (pre post : list (Z * inp A)) now w e,
+  Forall (amb_quiet n) pre -> (w < n)%nat ->
+  snd (run (x_amb n) (pre ++ (now, ISrc w e) :: post)) = RState [w] [] false
+  \/ snd (run (x_amb n) (pre ++ (now, ISrc w e) :: post)) = RState [] [] true.
+Proof. exact @amb_run_losers_released. Qed.
+Print Assumptions C13_amb_run_losers_released.
+
+(* whenever amb has forwarded anything at all, at most ONE source is still subscribed *)
+Theorem C13_amb_run_at_most_winner_live : forall A n (ins : list (Z * inp A)),
+  amb_spec n None 1 ins <> [] ->
+  exists w, (w < n)%nat /\
+    (snd (run (x_amb n) ins) = RState [w] [] false \/ snd (run (x_amb n) ins) = RState [] [] true).
+Proof. exact @amb_run_at_most_winner_live. Qed.
+Print Assumptions C13_amb_run_at_most_winner_live.
+
+Example C13_witness_amb_losers :
+  snd (run (x_amb 3) [(0, ITick 7%nat); (0, ISrc 5%nat (Next 1)); (0, ISrc 1%nat (Next 5))]) = RState [1%nat] [] false
+  /\ snd (run (x_amb 3) [(0, ISrc 1%nat (Next 5)); (0, ISrc 0%nat (Next 9)); (0, ISrc 1%nat Done)]) = RState [] [] true.
+Proof. vm_compute. split; reflexivity. Qed.
+
+(* ---- zip over the FULL input alphabet ------------------------------------------------------------
+   REFINEMENT, every number of sources, EVERY input sequence (elements, completions, errors, ticks,
+   dispose; also from sources that already completed): what the subscriber receives, and when, is
+   [zip_spec] -- per-source histories, completed flags and the number c of tuples emitted; tuple c =
+   the c-th elements of the histories, emitted at the first moment every history is longer than c;
+   completion at the first moment a completed source has nothing beyond the emitted tuples; the first
+   error of a subscribed source ends it. *)
+Theorem C13_zip_refines_spec : forall A n (ins : list (Z * inp A)),
+  temitted (fst (run (x_zip n) ins)) = zip_spec n (repeat [] n) (repeat false n) 0 1 ins.
+Proof. exact @zip_refines_spec. Qed.
+Print Assumptions C13_zip_refines_spec.
+
+(* run-level pairing: the i-th tuple has one component per source, component k being the i-th
+   element source k delivered while subscribed ([zip_hists]) -- which exists *)
+Theorem C13_zip_run_pairing : forall A n (ins : list (Z * inp A)) i tup,
+  nth_error (tuples (temitted (fst (run (x_zip n) ins)))) i = Some tup ->
+  length tup = n /\
+  forall k d, (k < n)%nat ->
+    (i < length (nth k (zip_hists n (repeat [] n) (repeat false n) ins) []))%nat
+    /\ nth k tup d = nth i (nth k (zip_hists n (repeat [] n) (repeat false n) ins) []) d.
+Proof. exact @zip_run_pairing. Qed.
+Print Assumptions C13_zip_run_pairing.
+
+Example C13_witness_zip_full :
+  let ins := [(0, ISrc 0%nat (Next 1)); (0, ISrc 0%nat (Next 2)); (0, ISrc 0%nat Done);
+              (0, ISrc 0%nat (Next 3)); (0, ISrc 1%nat (Next 10)); (0, ISrc 1%nat (Next 20));
+              (0, ISrc 1%nat (Next 30))] in
+  temitted (fst (run (x_zip 2) ins)) = [(5%nat, Next [1; 10]); (6%nat, Next [2; 20]); (6%nat, Done)]
+  /\ zip_hists 2 (repeat [] 2) (repeat false 2) ins = [[1; 2]; [10; 20; 30]].
+Proof. vm_compute. split; reflexivity. Qed.
 
 Example C13_witness_fork_join :
   fj_feed 2 (repeat None 2, repeat false 2) [(0%nat, Some 1); (1%nat, Some 10); (0%nat, Some 2); (0%nat, None); (1%nat, Some 20); (1%nat, None)] []
